@@ -14,5 +14,7 @@ func controlsC02() []Control {
 		{Name: "settlement credits by position in the result list", Expect: "R3", Mutate: replaceIn("(*tableEngine).settleGame", "for _, player := range te.table.State.GameState.Result.Players {\n\t\tplayerIdx := te.table.State.GamePlayerIndexes[player.Idx]", "for ri, player := range te.table.State.GameState.Result.Players {\n\t\tplayerIdx := te.table.State.GamePlayerIndexes[ri]", 0)},
 		{Name: "PlayerReserve rebuilds the hand index list", Expect: "R4", Mutate: replaceIn("(*tableEngine).PlayerReserve", "te.emitEvent(\"PlayerReserve\", joinPlayer.PlayerID)", "te.table.State.GamePlayerIndexes = []int{0}\n\tte.emitEvent(\"PlayerReserve\", joinPlayer.PlayerID)", 0)},
 		{Name: "every hand entry gets a dealer label", Expect: "R1", Mutate: replaceIn("(*tableEngine).startGame", "\topts.Players = playerSettings\n", "\tplayerSettings[1].Positions = append(playerSettings[1].Positions, Position_Dealer)\n\topts.Players = playerSettings\n", 0)},
+		{Name: "leave remap records positions in the old player list", Expect: "R4", Mutate: replaceIn("(*tableEngine).calcLeavePlayers", "for newPlayerIdx, player := range newPlayerStates {\n\t\tnewPlayerData[player.PlayerID] = newPlayerIdx", "for newPlayerIdx, player := range currentPlayers {\n\t\tnewPlayerData[player.PlayerID] = newPlayerIdx", 0)},
+		{Name: "engine seat scan compares the unreduced counter", Expect: "R4", Mutate: replaceIn("(*tableEngine).refreshNextBBOrderPlayerIDs", "newBBSeatID := i % tableMaxSeatCount", "newBBSeatID := i", 0)},
 	}
 }
